@@ -81,6 +81,23 @@ def run_parts(pid, run, tier, tmpdir):
         except subprocess.TimeoutExpired:
             return (i, None, "hard timeout after %ds: %s" % (hard, " ".join(cmd)))
         if r.returncode != 0 or not os.path.exists(out):
+            how = death_kind(r.returncode, r.stderr)
+            if how:
+                # the partition was killed inside the code under test (signal, sanitizer, libstdc++ assertion,
+                # uncaught exception): run it once more; the same death twice is a deterministic crash of the
+                # implementation on an input of the enumerated domain, reported as a violation (not as a harness error)
+                try:
+                    r2 = subprocess.run(cmd, stdout=subprocess.PIPE, stderr=subprocess.PIPE, text=True, env=env,
+                                        timeout=hard, errors="replace")
+                    if death_kind(r2.returncode, r2.stderr) == how:
+                        return (i, {"exhaustive": False, "violations": [{
+                            "sig": "%s/crash/%s/%s" % (pid, run["harness"], how), "count": 1,
+                            "case": PARTCASE + json.dumps(cmd[1:]),
+                            "detail": "partition %d of %s died twice with %s; stderr tail: %s"
+                                      % (i, run["harness"], how, r2.stderr[-1500:])}],
+                            "caps": ["partition %d ended by a crash of the code under test" % i]}, None)
+                except subprocess.TimeoutExpired:
+                    pass
             return (i, None, "harness exit %d: %s\nstdout: %s\nstderr: %s" %
                     (r.returncode, " ".join(cmd), r.stdout[-3000:], r.stderr[-3000:]))
         with open(out) as f:
@@ -122,7 +139,48 @@ def merge(results):
     return m
 
 
+PARTCASE = "@partition "
+
+
+def death_kind(rc, stderr):
+    """classifies the death of a harness process inside the code under test; '' for an ordinary harness exit"""
+    if rc is None or rc == 0:
+        return ""
+    if rc < 0:
+        return "signal-%d" % -rc
+    tail = stderr[-6000:]
+    if "AddressSanitizer" in tail:
+        return "asan"
+    if "runtime error:" in tail:
+        return "ubsan"
+    if "terminate called" in tail or "Assertion" in tail and "/include/c++/" in tail:
+        return "abort"
+    return ""
+
+
+def replay_partition(exe, run, case):
+    """a crash of a whole partition is replayed by running that partition again: exit 1 iff it dies the same way"""
+    args = json.loads(case[len(PARTCASE):])
+    out = os.path.join(build.BUILD, "tmp", "replay-part-%d.json" % os.getpid())
+    os.makedirs(os.path.dirname(out), exist_ok=True)
+    if "--out" in args:
+        args[args.index("--out") + 1] = out
+    try:
+        r = subprocess.run([exe] + args, stdout=subprocess.PIPE, stderr=subprocess.PIPE, text=True,
+                           env=run_env(run), timeout=7200, errors="replace")
+    except subprocess.TimeoutExpired:
+        return 124, "partition replay timed out"
+    global LAST_STDERR
+    LAST_STDERR = r.stderr
+    how = death_kind(r.returncode, r.stderr)
+    if os.path.exists(out):
+        os.unlink(out)
+    return (1, "partition died: %s\n" % how) if how else (0, "partition ended normally (exit %d)\n" % r.returncode)
+
+
 def replay_once(exe, run, case):
+    if case.startswith(PARTCASE):
+        return replay_partition(exe, run, case)
     env = run_env(run)
     try:
         r = subprocess.run([exe, "--replay-case", case], stdout=subprocess.PIPE, stderr=subprocess.PIPE,
@@ -195,8 +253,12 @@ def check(pid, tier):
     rc = 0
     reported = []
     for run, exe, v in new[:int(os.environ.get("VERIF_MAX_REPORT", "12"))]:
-        c1, o1 = replay_once(exe, run, v["case"])
-        c2, o2 = replay_once(exe, run, v["case"])
+        if v["case"].startswith(PARTCASE):
+            c1, o1 = 1, v["detail"].split(";")[0] + "\n"   # died twice already (run_parts)
+            c2, o2 = c1, o1
+        else:
+            c1, o1 = replay_once(exe, run, v["case"])
+            c2, o2 = replay_once(exe, run, v["case"])
         if c1 != 1 or c2 != 1 or o1 != o2:
             sys.stderr.write("HARNESS-ERROR property=%s violation %s did not replay deterministically "
                              "(exit %d/%d, same output: %s)\n--- first\n%s\n--- second\n%s\n"
